@@ -75,7 +75,7 @@ def bad_index(kind, n, for_push_at=False):
     return {"len": hi, "neglen1": lo, "far": n + 1000, "negfar": -(n + 1000), "max": I64MAX, "min": I64MIN}[kind]
 
 
-OTHER = {"Int": "s:7a", "String": "i:5", "Probe": "i:5"}      # a value of a different type than the element type
+OTHER = {"Int": "s:7a", "String": "i:5", "Probe": "i:5", "Blob": "i:5"}      # a value of a different type than the element type
 KNOWN_KEYS = {}
 
 
@@ -292,8 +292,8 @@ def run_map(ctx, case):
     if not applicable:
         return None
     r.check()
-    if kt == "Probe":
-        P.add("live", expect_ok("live=%d ledger=-" % (2 * len(r.model))))
+    if kt == "Probe" or vt == "Probe":
+        P.add("live", expect_ok("live=%d ledger=-" % (((kt == "Probe") + (vt == "Probe")) * len(r.model))))
     suffix = ops[cut:]
     for op in suffix:
         r.apply(op)
